@@ -8,7 +8,7 @@ from . import common as c
 
 SUPPORT = ["Num/Dec.v", "Num/DecLemmas.v", "Num/IntParse.v", "Num/IntParseProofs.v", "Num/NumGrammar.v", "Num/NumGrammarProofs.v",
            "Num/SkipNumberProofs.v", "Num/Range.v", "Num/RangeProofs.v", "Num/RangeGen.v", "Num/IntPrint.v", "Num/IntPrintProofs.v", "Num/IntPrintExact.v",
-           "Num/FloatFmt.v", "Num/FloatFmtProofs.v", "Num/WriteDecDenotes.v", "Num/FloatFmt32Proofs.v", "Num/FloatCheck.v", "Num/FloatSpec.v", "Num/FloatCheckProofs.v", "Num/FloatCheckSound.v", "Num/FloatInterval.v", "Num/ShortestSound.v", "Num/FloatComplete.v", "Num/ShortestComplete.v",
+           "Num/FloatFmt.v", "Num/FloatFmtProofs.v", "Num/WriteDecDenotes.v", "Num/FloatFmt32Proofs.v", "Num/WriteDecGrammar.v", "Num/FloatShortcut.v", "Num/VNumberScan.v", "Num/VNumberLiteral.v", "Num/FloatCheck.v", "Num/FloatSpec.v", "Num/FloatCheckProofs.v", "Num/FloatCheckSound.v", "Num/FloatInterval.v", "Num/ShortestSound.v", "Num/FloatComplete.v", "Num/ShortestComplete.v",
            "Num/VNumber.v", "Num/Api.v", "Num/Refuted.v"]
 
 CLAIM = {
